@@ -28,3 +28,30 @@ package hotstuff
 //@   ensures [availability] Q(n) <= n - F(n)
 //@   ensures [minimal] 2*(Q(n)-1) - n < F(n) + 1
 //@   ensures [f-max] 3*F(n) < n && 3*(F(n)+1) >= n
+
+// ---- signatures and participant sets: model functions used by the interface contracts.
+// parts(s) is the participant set of a signature; setlen / setmem are the size and the
+// membership of an ID set. blockcontent / viewcontent stand for the exact bytes-to-sign of
+// a block and of a view (functions of the object; C12 deals with what they contain).
+//@ pure func parts(s QuorumSignature) IDSet
+//@ pure func setlen(s IDSet) int
+//@ pure func setmem(s IDSet, id ID) bool
+//@ pure func blockcontent(b *Block) int
+//@ pure func viewcontent(v View) int
+
+//@ interface QuorumSignature.Participants
+//@   ensures result == parts(self) && result != nil
+//@ interface IDSet.Len
+//@   ensures result == setlen(self) && result >= 0
+//@ interface IDSet.Contains
+//@   ensures result == setmem(self, id)
+
+//@ func (*Block).ToBytes
+//@   trusted the bytes-to-sign of a block are a function of the block (serialisation checked under C12)
+//@   requires b != nil
+//@   ensures content(result) == blockcontent(b) && fresh(result)
+//@   modifies alloc
+//@ func (View).ToBytes
+//@   trusted little-endian encoding of the view; a function of the view
+//@   ensures content(result) == viewcontent(v) && len(result) == 8 && fresh(result)
+//@   modifies alloc
